@@ -24,7 +24,8 @@ FILES = [
     "qucumber/utils/data.py",
 ]
 REQUIRED_THEOREMS = ["C07_partition", "C07_own_basis", "C07_sizes", "C07_zip_truncation", "C07_negative", "C07_refbasis",
-                     "C07_fit_batches", "C07_no_mutation", "C07_fit_epoch", "C07_positional_call"]
+                     "C07_fit_batches", "C07_no_mutation", "C07_fit_epoch", "C07_positional_call",
+                     "C07_train_samples_value"]   # extension round 2
 RULE = ("case = session on one state object (kind [positive: no bases; complex/density: bases], n) of 1..3 consecutive fit calls, "
         "each call = (N, pos_batch_size B, neg_batch_size in {None, 0, B, other incl. > B and > N}, epochs 1..3, data container in "
         "{tensor(double/float32/int64/uint8), non-contiguous tensor views (transposed / strided with offset), ndarray(float64/"
@@ -83,6 +84,10 @@ def container(data, form):
         return copy.deepcopy(data)
     if form == "tuple":
         return tuple(tuple(r) for r in data)
+    if form == "list_float":      # extension round 2: nested list of Python floats / bools (torch.tensor(data, dtype=double): no default-dtype rounding)
+        return [[float(x) for x in r] for r in data]
+    if form == "list_bool":
+        return [[bool(x) for x in r] for r in data]
     N, n = len(data), len(data[0])
     if form.startswith("ndarray"):
         kind = form[len("ndarray_"):]
@@ -93,7 +98,7 @@ def container(data, form):
             v = big[::2, 1:]
             v[...] = np.array(data, dtype=np.int64)
             return v
-        return np.array(data, dtype={"f64": np.float64, "f32": np.float32, "i64": np.int64}[kind])
+        return np.array(data, dtype={"f64": np.float64, "f32": np.float32, "i64": np.int64, "u8": np.uint8, "bool": np.bool_}[kind])
     kind = form[len("tensor_"):]
     if kind == "f64_t":  # column-major (transposed) view
         return torch.tensor(data, dtype=torch.double).t().contiguous().t()
@@ -103,7 +108,7 @@ def container(data, form):
         v = big[::2, 1:]
         v.copy_(torch.tensor(data, dtype=dt))
         return v
-    dt = {"f64": torch.double, "f32": torch.float32, "i64": torch.int64, "u8": torch.uint8}[kind]
+    dt = {"f64": torch.double, "f32": torch.float32, "i64": torch.int64, "u8": torch.uint8, "bool": torch.bool}[kind]
     return torch.tensor(data, dtype=dt)
 
 
@@ -117,7 +122,7 @@ def overwrite(obj, data):
         return True
     if isinstance(obj, list):
         for row, new in zip(obj, data):
-            row[:] = new
+            row[:] = [type(row[0])(x) for x in new] if row else new
         return True
     return False
 
@@ -132,6 +137,18 @@ def bases_container(bases, form, width=1):
         v[...] = a
         return v
     return a
+
+
+def box_of(obj):
+    """the container form of the caller's data object as QV.ArgConv.Box travels to the driver"""
+    if isinstance(obj, torch.Tensor):
+        return "tensor:" + str(obj.dtype).replace("torch.", "")
+    if isinstance(obj, np.ndarray):
+        return "ndarray:" + str(obj.dtype)
+    leaf = obj
+    while isinstance(leaf, (list, tuple)) and len(leaf):
+        leaf = leaf[0]
+    return "list:" + ("bool" if isinstance(leaf, bool) else ("float" if isinstance(leaf, float) else "int"))
 
 
 def snapshot(obj):
@@ -401,11 +418,15 @@ def one_call(ctx, case, st, kind, run, r_idx, state):
     rec = Recorder()
     orig_cbg = type(st).compute_batch_gradients.__get__(st)
     alias = []
+    batch_dtypes = set()
+    box = box_of(data_obj)
+    data_at_call = copy.deepcopy(data)
 
     def cbg(k, samples_batch, neg_batch, bases_batch=None):
         rec.log.append(("batch", rows_int(samples_batch), rows_int(neg_batch),
                         bases_rows(bases_batch) if bases_batch is not None else None,
                         (storage_key(samples_batch), storage_key(neg_batch), storage_key(bases_batch) if bases_batch is not None else None)))
+        batch_dtypes.add((str(samples_batch.dtype), str(neg_batch.dtype)))
         alias.append(shares_memory(samples_batch, data_obj) or shares_memory(neg_batch, data_obj)
                      or (bases_batch is not None and shares_memory(bases_batch, bases_obj)))
         return orig_cbg(k, samples_batch, neg_batch, bases_batch)
@@ -430,6 +451,7 @@ def one_call(ctx, case, st, kind, run, r_idx, state):
         scr["post"] = snapshot(data_obj)
         if scr["possible"]:
             state["data"] = new_rows  # what the caller's object holds from now on
+            scr["new_rows"] = new_rows
 
     marks = LambdaCallback(on_epoch_start=lambda s_, e_: rec.log.append(("epoch", int(e_))), on_epoch_end=after_epoch)
     rec.install()
@@ -546,6 +568,30 @@ def one_call(ctx, case, st, kind, run, r_idx, state):
     # ---- correspondence with the model (fed the data of THIS call)
     if ctx.driver is None:
         return
+    if not expect_error:
+        # extension round 2: the conversion of the caller's OBJECT (container form, element type, storage identity) inside the model
+        ctx.count(f"data object handed to fit as {box}")
+        mc = ctx.driver.call("c07.fit_convert", default_double=(torch.get_default_dtype() == torch.double), box=box, rows=data_at_call, bases=bases,
+                             posB=B, negB=neg, write_rows=scr.get("new_rows"))
+        if "error" in mc:
+            ctx.point("model refuses a data object the implementation trained on", "property", None, mc["error"], case, exact=True, sig=f"{sig}/convert-refused",
+                      theorem="C07_train_samples_value")
+        elif eps:
+            srt = lambda rows: sorted([int(x) for x in r] for r in rows)  # noqa: E731
+            first = [r for p_, _, _ in eps[0]["batches"] for r in p_]
+            ctx.point("rows fit trains on (first epoch, as a multiset) = the rows of the caller's object at the time of the call, as exact 0/1 values", "property",
+                      srt(first), srt(mc["train"]), case, exact=True, sig=f"{sig}/train-rows/{box}", theorem="C07_train_samples_value")
+            # the element type of the batches is not constrained by the property text: informational counter (the model says double)
+            ctx.count("element type of the batches handed to compute_batch_gradients: " + ", ".join(sorted({d_ for p_ in batch_dtypes for d_ in p_})) +
+                      f" (model: torch.{mc['dtype']})")
+            if scr["done"] and scr["possible"] and len(eps) > scr["epoch"] + 1:
+                later = [r for p_, _, _ in eps[-1]["batches"] for r in p_]
+                ctx.count("rows of an epoch AFTER the caller's in-place overwrite compared with the model's train_samples after the same write")
+                ctx.point("rows fit trains on AFTER the caller overwrote its data object in place = still the rows handed to fit (train_samples lives in a "
+                          "storage of its own)", "property", srt(later), srt(mc["train_after_write"]), case, exact=True, sig=f"{sig}/train-rows-after-write/{box}",
+                          theorem="C07_train_samples_value")
+            ctx.point("model: train_samples in a fresh storage, caller's storages unwritten", "aux", True, bool(mc["fresh"] and mc["caller_unchanged"]), case, exact=True,
+                      sig=f"{sig}/convert-frame", theorem="C07_train_samples_value")
     if not expect_error and not scripted:
         # the model (QV.Batching.shuffleData) takes the randperm / randint results as inputs: when the code draws its randomness differently the
         # theorems can no longer be tied to it. Reported ONCE per run as a broken CORRESPONDENCE (auxiliary point, stable signature); the property
@@ -694,7 +740,8 @@ def one_direct(ctx, case):
 
 # ------------------------------------------------------------------ generation
 FORMS = ["tensor_f64", "tensor_f32", "tensor_i64", "tensor_u8", "ndarray_f64", "ndarray_i64", "list",
-         "tensor_f64_t", "tensor_f64_strided", "tensor_i64_strided", "ndarray_f32", "ndarray_f64_fortran", "ndarray_i64_strided", "tuple"]
+         "tensor_f64_t", "tensor_f64_strided", "tensor_i64_strided", "ndarray_f32", "ndarray_f64_fortran", "ndarray_i64_strided", "tuple",
+         "tensor_bool", "ndarray_u8", "ndarray_bool", "list_float", "list_bool"]   # the last five: extension round 2 (element-type forms)
 BASES_FORMS = ["c", "c", "fortran", "strided"]
 
 
